@@ -11,6 +11,7 @@
 //	apply trace    verifApplyTrace(<recv>, <arg2>, <arg3>, <arg4>)   arguments copied from the anchor call itself
 //	entry hooks    verifRestoreTrace(<recv>, "<kind>", <expr>)  first statement of a function
 //	fdatasync      verifFdatasynced(<file>)                     after the real fdatasync of the WAL tail (C05)
+//	trigger gap    verifTriggerGap(id, rd != nil)               after w.l.Unlock() of wait.Trigger (C04, protocol waittable)
 //
 // Output: <out>/<pkg>/<file>.go for every file with at least one insertion, <out>/<pkg>/verif_crash_gen.go
 // (the per-package verifCrash), <out>/node/verif_points_gen.go (found / missing lists, read by the harness) and
@@ -123,6 +124,9 @@ var points = []point{
 	{"node/node.go", "KVNode.applyEntry", "nd.sm.ApplyRaftRequest", 1, "before", "trace:apply"},
 	{"node/node.go", "KVNode.RestoreFromSnapshot", "", 0, "entry", "trace:restore"},
 	{"node/node.go", "KVNode.CleanData", "", 0, "entry", "trace:clean"},
+	// protocol waittable (C04): the window of wait.Trigger between its two parts (registration deleted and lock dropped,
+	// result not stored / channel not signalled yet); hook in harness/overlay/pkg/wait
+	{"pkg/wait/wait.go", "multList.Trigger", "w.l.Unlock", 1, "after", "trace:triggergap"},
 }
 
 func exprString(fset *token.FileSet, e ast.Node) string {
@@ -394,6 +398,8 @@ func main() {
 					}
 					text = fmt.Sprintf("verifApplyTrace(%s, %s, %s, %s)", recv, exprString(fset, c.call.Args[2]),
 						exprString(fset, c.call.Args[3]), exprString(fset, c.call.Args[4]))
+				} else if p.Name == "trace:triggergap" {
+					text = "verifTriggerGap(id, rd != nil)"
 				} else if p.Name == "trace:fdatasync" {
 					if len(c.call.Args) != 1 {
 						miss(p, "anchor call does not have one argument")
